@@ -27,8 +27,8 @@ Definition chk_quote_str (c : (list N * list N) * option (list N)) : bool :=
 
 (* ASCII str s: (s, (unquote_to_bytes(s), unquote(s, errors="surrogateescape"))) *)
 Definition chk_unquote_ascii (c : list N * (list N * list N)) : bool :=
-  let '(s, (ub, us)) := c in
-  str_eqb (unquote_bytes s) ub && str_eqb (unquote_str s) us && str_eqb (unquote_py s) us.
+  let '(s, (unpack_b, us)) := c in
+  str_eqb (unquote_bytes s) unpack_b && str_eqb (unquote_str s) us && str_eqb (unquote_py s) us.
 
 (* any str s: (s, unquote(s, errors="surrogateescape")) *)
 Definition chk_unquote_any (c : list N * list N) : bool :=
@@ -36,7 +36,7 @@ Definition chk_unquote_any (c : list N * list N) : bool :=
 
 (* bytes b: (b, unquote_to_bytes(b)) *)
 Definition chk_unquote_bytes (c : list N * list N) : bool :=
-  let '(b, ub) := c in str_eqb (unquote_bytes b) ub.
+  let '(b, unpack_b) := c in str_eqb (unquote_bytes b) unpack_b.
 
 (* ---------- packed transport ----------
    Parsing a shard costs time per syntax node, so the harness packs every
@@ -57,22 +57,22 @@ Fixpoint unpack_chunk (fuel : nat) (base : N) (n : N) : list N :=
 
 Definition unpack (base : N) (l : list int) : list N :=
   flat_map (fun i => unpack_chunk 8 base (n_of_int i)) l.
-Definition ub (l : list int) : list N := unpack 256 l.        (* bytes / ASCII *)
-Definition uc (l : list int) : list N := unpack 2097152 l.    (* code points *)
+Definition unpack_b (l : list int) : list N := unpack 256 l.        (* bytes / ASCII *)
+Definition unpack_c (l : list int) : list N := unpack 2097152 l.    (* code points *)
 
 Definition pk_bytes (c : list int * (list int * list int)) : bool :=
-  let '(b, (dec, q)) := c in chk_bytes (ub b, (uc dec, ub q)).
+  let '(b, (dec, q)) := c in chk_bytes (unpack_b b, (unpack_c dec, unpack_b q)).
 Definition pk_decode (c : list int * list int) : bool :=
-  let '(b, dec) := c in chk_decode (ub b, uc dec).
+  let '(b, dec) := c in chk_decode (unpack_b b, unpack_c dec).
 Definition pk_quote (c : (list int * list int) * list int) : bool :=
-  let '((safe, b), q) := c in chk_quote ((ub safe, ub b), ub q).
+  let '((safe, b), q) := c in chk_quote ((unpack_b safe, unpack_b b), unpack_b q).
 Definition pk_encode (c : list int * option (list int)) : bool :=
-  let '(s, e) := c in chk_encode (uc s, option_map ub e).
+  let '(s, e) := c in chk_encode (unpack_c s, option_map unpack_b e).
 Definition pk_quote_str (c : (list int * list int) * option (list int)) : bool :=
-  let '((safe, s), q) := c in chk_quote_str ((uc safe, uc s), option_map ub q).
+  let '((safe, s), q) := c in chk_quote_str ((unpack_c safe, unpack_c s), option_map unpack_b q).
 Definition pk_unquote_ascii (c : list int * (list int * list int)) : bool :=
-  let '(s, (b, us)) := c in chk_unquote_ascii (ub s, (ub b, uc us)).
+  let '(s, (b, us)) := c in chk_unquote_ascii (unpack_b s, (unpack_b b, unpack_c us)).
 Definition pk_unquote_any (c : list int * list int) : bool :=
-  let '(s, us) := c in chk_unquote_any (uc s, uc us).
+  let '(s, us) := c in chk_unquote_any (unpack_c s, unpack_c us).
 Definition pk_unquote_bytes (c : list int * list int) : bool :=
-  let '(b, u) := c in chk_unquote_bytes (ub b, ub u).
+  let '(b, u) := c in chk_unquote_bytes (unpack_b b, unpack_b u).
